@@ -221,14 +221,36 @@ def run(tier):
         run_case(j, e)
     if len(seen) < 5000:
         raise MachineryError("C09 export too small: %d" % len(seen))
-    cov = {"states": r.distinct, "transitions": r.generated,
-           "traces_validated_against_impl": j.evaluations, "cases_enumerated": len(seen),
+    n_cells = j.evaluations
+    # behaviours of the multi-valued machine (SeqMachine.tla): broadcasting products, inverses, powers and list
+    # operations interleaved on ONE live object whose every value is known exactly after every step
+    import seqlib
+    rs_small = run_tlc("MC_Seq", "Seq_small", timeout=900)          # invariants and action properties of the model
+    nb = 400 if tier == "thorough" else 40
+    sims, beh = [], 0
+    for cfg, classes in (("Seq_sim", ["SE3", "Twist3"]), ("Seq_sim_rot", ["SO3", "UnitQuaternion"]),
+                         ("Seq_sim_planar", ["SE2", "Twist2"]), ("Seq_sim_planar_rot", ["SO2"])):
+        rs = run_tlc("MC_Seq", cfg, workers=4, simulate=max(1, nb // 4), depth=40, seed_=common.seed() + 9, timeout=900)
+        if len(rs.json) < nb // 2:
+            raise MachineryError("sequence machine produced %d behaviours" % len(rs.json))
+        sims.append(rs)
+        for k, h in enumerate(rs.json):
+            for c in classes:
+                seqlib.replay(j, PID, c, h, sigma=[1.0, 1e3, 1e-3][k % 3] if c in ("SE3", "SE2", "Twist3", "Twist2") else 1.0)
+                beh += 1
+    j.sample({"behaviour(first 5 steps)": [{"call": {a: b for a, b in st["call"].items() if a not in ("ys", "g")},
+                                              "len": len(st["post"])} for st in sims[0].json[0][:5]]})
+    cov = {"states": r.distinct + rs_small.distinct, "transitions": r.generated + rs_small.generated + sum(x.generated for x in sims),
+           "traces_validated_against_impl": n_cells + beh, "cases_enumerated": len(seen),
+           "sequence_machine": {"exhaustive_small": rs_small.stats(), "behaviours_replayed": beh, "depth": 12,
+                                "steps_compared": j.evaluations - n_cells},
            "exhaustive": True, "checker_cmd": r.cmd,
            "rule": "case = (operator or method, left class, right kind, m, n), m, n in 0..5; "
                    "non-trivial = at least one operand multi-valued; oracle = the library's "
                    "single-valued result on the elements Pick(i) selects"}
     return {"judge": j, "coverage": cov, "level": "model_checking", "assumptions": [
-        "the single-valued operation is the oracle for element values (its correctness is C02/C04)",
+        "the single-valued operation is the oracle for element values of the table cells (its correctness is C02/C04); "
+        "the sequence-machine behaviours are compared with EXACT values from the specification instead",
         "per-value results may be returned as object, list, or array stacked along the first or "
         "last axis (the statement does not fix the container)"]}
 
